@@ -37,8 +37,8 @@ func (v *Notifier[T]) removeListener(value T, channel chan struct{}) {
 	valueListeners.count--
 
 	if valueListeners.count == 0 {
-		// No one is listening anymore, so we can close the channel and clean up
-		close(valueListeners.channel)
+		// No one is listening anymore, so we can clean up. The channel must not be closed here,
+		// because closing it signals a notification to a concurrent Wait.
 		v.listeners.Delete(value)
 	}
 }
